@@ -102,7 +102,7 @@ MISSED_FIRST = {  # seeds not reported by the checks as they stood when the seed
     "C12-r7C": "undecided (exit 2): bit_length arithmetic is outside the abstract domain of C12.1",
     "C13-r7C": "undecided (exit 2): how the per-directory maps are merged is not read (C13.5)",
     "C14-r7C": "was reported by C13.3 and by C14.3 at the v1 matcher for false reasons (guard clauses with `length and ...`, size filter inside the candidates comprehension); both are now evaluated (non-empty world, filter of the comprehension) and the seed is reported by C14.3 at _match_v2 only: the copy is not conditional on the size",
-    "C15-r7C": "was reported by C01.6 for a false reason (two extends in exclusive arms counted as two); extends are now counted per path; the seed is answered undecided (C15.3 follows one read in __next__, the rewrite has two)",
+    "C15-r7C": "was reported by C01.6 for a false reason (two extends in exclusive arms counted as two); extends are now counted per path. C15.3 follows one read in __next__ and the rewrite spells the same read twice (before and inside a `while size == 0` loop): identical reads now count as one, and C15.3 reports the slip - with the align switch on, the handler reaches `... and self.next_file()` before the piece is complete, so the last file's tail is left short",
     "C16-r7C": "undecided (exit 2): the padding generator's emissions are not recognised in the reshaped loop",
     "C17-r7C": "reported by C17.2 (the temporary file is never closed before the replace); C07.2 reported it as well for a false reason (isinstance guard on a value that is None when the field is not named), now evaluated",
     "C20-r7C": "was reported by C20.3 and C08 for false reasons (stores driven by a local table were not read); local dictionary tables walked with .items() are now written out row by row, their values taken where the display is evaluated - and C20.4 reports the slip itself: the list is copied BEFORE the recovery arm removes a swallowed content path",
